@@ -1,8 +1,13 @@
 //! vh — conformance harness binding the TLA+ specifications in /verif/spec to the real anydb code.
 //! Subcommands (one per conformance direction / subsystem); each reads ndjson emitted by TLC
 //! (behaviours) or writes ndjson traces, and prints a JSON summary on stdout.
+mod codecreplay;
 mod crashreplay;
+mod eagerreplay;
 mod importreplay;
+mod lazyreplay;
+mod lockmine;
+mod sched;
 mod rawreplay;
 mod reads;
 mod util;
@@ -15,12 +20,19 @@ fn main() {
         std::process::exit(2);
     }
     // panics in the code under test are data: keep them quiet
-    std::panic::set_hook(Box::new(|_| {}));
+    if std::env::var("VH_PANIC").is_err() {
+        std::panic::set_hook(Box::new(|_| {}));
+    }
     let code = match args[1].as_str() {
         "vecreplay" => vecreplay::main(&args[2..]),
         "rawreplay" => rawreplay::main(&args[2..]),
         "importreplay" => importreplay::main(&args[2..]),
         "crashreplay" => crashreplay::main(&args[2..]),
+        "lockmine" => lockmine::main(&args[2..]),
+        "sched" => sched::main(&args[2..]),
+        "eagerreplay" => eagerreplay::main(&args[2..]),
+        "codecreplay" => codecreplay::main(&args[2..]),
+        "lazyreplay" => lazyreplay::main(&args[2..]),
         other => {
             eprintln!("unknown subcommand {other}");
             2
